@@ -159,6 +159,8 @@ def havoc(run, descs, dyn_cls_of=None):
             m = st.heap[d[1]]
             if isinstance(m, SeqO):
                 st.heap[d[1]] = SeqO(m.skind, fresh('hv_seq', m.term.sort()))
+            elif isinstance(m, IMapO):
+                st.heap[d[1]] = IMapO(m.n, fresh('hv_imap', m.vals.sort()), m.vkind)
             elif isinstance(m, MapO):
                 nm = m
                 for c, arr in m.cols.items():
@@ -211,6 +213,8 @@ def _havoc_obj(run, loc):
         st.heap[loc] = nm
     elif isinstance(o, SeqO):
         st.heap[loc] = SeqO(o.skind, fresh('hv_seq', SeqV.SORT[o.skind]))
+    elif isinstance(o, IMapO):
+        st.heap[loc] = IMapO(o.n, fresh('hv_imap', o.vals.sort()), o.vkind)      # same keys 0..n-1, any values
     elif isinstance(o, Obj):
         decls = specmod.class_fields(run.repo, o.cls)
         no = Obj(o.cls, o.fields)
@@ -388,6 +392,15 @@ def frame_obligations(run, entry, descs, roots, props):
             for f in o1.fields:
                 if f not in o0.fields and (loc, f) not in fields_ok:
                     run.emit('frame', z3.BoolVal(False), '%s.%s(new attribute)' % (nm, f), props=props)
+        elif isinstance(o0, IMapO):
+            if loc in maps_ok or loc in vals_ok:
+                continue
+            if not z3.eq(o0.n, o1.n):
+                run.emit('frame', o0.n == o1.n, '%s{keys}' % nm, props=props)
+            if not z3.eq(o0.vals, o1.vals):
+                kk = fresh('kk', Int)
+                run.emit('frame', z3.Implies(z3.And(0 <= kk, kk < o0.n), o0.vals[kk] == o1.vals[kk]), '%s[*]' % nm,
+                         props=props)
         elif isinstance(o0, MapO):
             if loc in maps_ok:
                 continue
@@ -450,6 +463,9 @@ def _flatten(run, v, out):
                 out.append(o.cols[c])
         elif isinstance(o, SeqO):
             out.append(o.term)
+        elif isinstance(o, IMapO):
+            out.append(o.n)
+            out.append(o.vals)
         else:
             raise Unsupported('canonical result over an argument of kind %s' % type(o).__name__)
     elif isinstance(v, TupleV):
@@ -510,6 +526,8 @@ def canonical_result(run, fi, sp, env, kind=None):
         return SeqV('R', mk('', RSeq), kind == 'rlist')
     if kind in ('aseq', 'alist'):
         return SeqV('A', mk('', ASeq), kind == 'alist')
+    if kind in ('iseq', 'ilist'):
+        return SeqV('I', mk('', smt.ISeq), kind == 'ilist')
     if kind == 'map:real':
         return run.st.alloc(MapO(mk('#k', ASeq), {'': mk('#v', RArr)}, {'': 'real'}))
     if kind == 'map:arm':
